@@ -346,3 +346,70 @@ Definition separated (m : mstate) : bool :=
    discipline of the interleaving theorem iff it contains no Write (Proofs/C07_Interleave.v, no_writes_sched_ok) *)
 Definition no_writes (s : list (nat * event)) : bool :=
   forallb (fun te => match snd te with Write _ => false | _ => true end) s.
+
+(* ---------------------------------------------------------------- joint actions (multi_agent/common.py apply_actions,
+   multi_agent_trajectory_exporter.py create_multi_agent_triplet / parse_plan) as histories of the operations above.
+   The Operators and the intermediate states these calls create and drop are handles like any other (the correspondence
+   run keeps them alive), so every theorem about histories speaks about them.  A member of a joint action is a nop
+   (None) or an action call with its schema's shape and the value-level fact "applicable in the state the joint action
+   is applied to" (an input, like `refused` of OTriplet).  The renderings are functions of the call's arguments and of
+   the numbers of state / operator handles alive (ns, no); they return the operations, the handle of the state the
+   call returns (None: it raises ValueError) and the numbers of handles afterwards. *)
+Record member := { mb_act : nat; mb_sh : ashape; mb_app : bool }.
+
+Definition acting (ms : list (option member)) : list member :=
+  flat_map (fun x => match x with Some mb => [mb] | None => [] end) ms.
+
+(* the loop of apply_actions over >= 2 acting members: o = next operator handle, acc = handle of the accumulated
+   state, ns = next state handle.  Per member: Operator(...); operator.is_applicable(current_state); then
+   acc = operator.apply(acc, allow_inapplicable_actions=True), or ValueError *)
+Fixpoint joint_loop (d s : nat) (objs : option nat) (allow : bool) (ms : list member) (o acc ns : nat)
+  : list op * option nat * nat * nat :=
+  match ms with
+  | [] => ([], Some acc, ns, o)
+  | mb :: r =>
+      let pre := [OMkOp d (mb_act mb) objs (mb_sh mb); OApplicable o s] in
+      if mb_app mb || allow then
+        let '(rest, res, ns', o') := joint_loop d s objs allow r (S o) ns (S ns) in
+        (pre ++ OApply o acc false false :: rest, res, ns', o')
+      else (pre, None, ns, S o)
+  end.
+
+Definition apply_actions_at (ns no d s : nat) (objs : option nat) (ms : list (option member)) (allow : bool)
+  : list op * option nat * nat * nat :=
+  match acting ms with
+  | [] => ([OCopy s], Some ns, S ns, no)                       (* nobody acts: current_state.copy() *)
+  | [mb] =>                                                     (* Operator(...).apply(current_state, allow) *)
+      let refused := negb (mb_app mb) && negb allow in
+      ([OMkOp d (mb_act mb) objs (mb_sh mb); OApply no s false refused],
+       if refused then None else Some ns, if refused then ns else S ns, S no)
+  | mbs =>
+      let '(rest, res, ns', no') := joint_loop d s objs allow mbs no ns (S ns) in (OCopy s :: rest, res, ns', no')
+  end.
+
+Definition apply_actions_ops (m : mstate) (d s : nat) (objs : option nat) (ms : list (option member)) (allow : bool)
+  : list op * option nat :=
+  fst (fst (apply_actions_at (List.length (sts m)) (List.length (ops m)) d s objs ms allow)).
+
+(* create_multi_agent_triplet: the log line serializes the input state; one Operator per acting member is built for
+   the triplet (never grounded); then apply_actions *)
+Definition ma_triplet_at (ns no d s pobjs : nat) (ms : list (option member)) (allow : bool)
+  : list op * option nat * nat * nat :=
+  let mbs := acting ms in
+  let '(rest, res, ns', no') := apply_actions_at ns (no + List.length mbs) d s (Some pobjs) ms allow in
+  (OReadState s :: map (fun mb => OMkOp d (mb_act mb) (Some pobjs) (mb_sh mb)) mbs ++ rest, res, ns', no').
+
+(* MultiAgentTrajectoryExporter.parse_plan: the first step starts from a State over the problem's own initial dicts
+   (the value of handle pobjs), every later step from the state the step before returned; returns the operations and
+   the handles of the triplets' next states (a step that raises ends the call) *)
+Fixpoint ma_plan_at (d pobjs : nat) (allow : bool) (steps : list (list (option member))) (ns no src : nat)
+  : list op * list nat :=
+  match steps with
+  | [] => ([], [])
+  | ms :: r =>
+      let '(ops1, res, ns', no') := ma_triplet_at ns no d src pobjs ms allow in
+      match res with
+      | None => (ops1, [])
+      | Some x => let '(ops2, xs) := ma_plan_at d pobjs allow r ns' no' x in (ops1 ++ ops2, x :: xs)
+      end
+  end.
